@@ -79,6 +79,10 @@ CLAIMED = {
         technique="MIR stored-value flow (single-writer census of the curve fields) and expression-tree pattern matching of the reserve update and of both pricing functions per direction and remainder case",
         note="Decided: R01.1 only the swap arms (and instantiate) change quote/base reserve and total_position_size, SetOpen/SettleFunding store them as loaded; R01.2 per direction base' = base -/+ y, tps' = tps +/- y with the same y, quote' = quote +/- x; R01.4 both pricing functions return |k*D/side' - other| with -1/+1 exactly when (k*D) mod side' != 0, remainder computed from the same k and side'; R01.5 both initial reserves validated >= one unit. Not decided: the inequality floor(q'b'/D) >= floor(qb/D) itself (follows from R01.2+R01.4 by the stated arithmetic lemma, not machine-checked); overflow.",
         design="4/C01"),
+    "C02": dict(
+        technique="finite-domain sign-table interpretation over the execute->vAMM->reply chain graph: side/direction helper tables, vAMM direction plumbing and event-attribute mapping extracted from MIR and composed for every assignment of acting side x position kind",
+        note="Decided: R02.1 on every swap edge and assignment the engine's size change has the sign of the vAMM's net-position change and its operand is the base amount of that swap kind (known finding F8: partial liquidation through SwapInput); R02.2 positions are removed/zeroed only after a SwapOutput of size.value in the position's own direction, every swap reply path stores or removes the position; R02.3 attribute keys / type values parsed by the engine are those the vAMM emits, with requested vs priced amounts on the right keys. Not decided: assumes the stored invariant size>0 <=> direction==AddToAmm; failed transactions are covered by C08.",
+        design="4/C02"),
 }
 
 NOT_BUILT = "rules designed in DESIGN.md section 4 but not built yet"
